@@ -69,9 +69,10 @@ var wsGlobCache = route.NewGlobCache(16)
 // runWS measures a case; an outcome that is not the expected one (or a harness timeout) is measured again in a
 // fresh run, at most three attempts (see runTunnel).
 func runWS(raw json.RawMessage) (interface{}, error) {
-	var out wsOut
+	var out, prev wsOut
 	var err error
-	for a := 1; a <= 3; a++ {
+	hits0 := softHits
+	for a, n := 1, maxAttempts(); a <= n; a++ {
 		var o interface{}
 		o, err = runWSOnce(raw, a)
 		if err != nil {
@@ -85,9 +86,16 @@ func runWS(raw json.RawMessage) (interface{}, error) {
 		if out.expected {
 			break
 		}
+		if a >= 2 && out.Up == prev.Up && out.Cl == prev.Cl && out.BurstGot == prev.BurstGot {
+			break // the same observation twice: not the scheduler
+		}
+		prev = out
 	}
 	if err != nil {
 		return nil, err
+	}
+	if !out.expected && softHits > hits0 {
+		lossSeen++
 	}
 	return out, nil
 }
@@ -218,9 +226,9 @@ func runWSOnce(raw json.RawMessage, attempt int) (interface{}, error) {
 	// OTHER side has sent must have arrived before (bytes in flight towards a side that has finished may
 	// legitimately be dropped): a count, re-measured when the bound is hit.
 	if in.Order == "upstream" {
-		waitFor(softT(attempt), nil, func() bool { return uep.n() >= clen+in.Burst })
+		softWait(attempt, nil, func() bool { return uep.n() >= clen+in.Burst })
 	} else {
-		waitFor(softT(attempt), nil, func() bool { return cep.n() >= xlen+ulen })
+		softWait(attempt, nil, func() bool { return cep.n() >= xlen+ulen })
 	}
 
 	finishUpstream := func() {
